@@ -52,6 +52,33 @@ R = [
         ("pygradflow/penalty.py", "        if any(dominates(e, entry) for e in self.entries):\n            return False\n\n        self.entries = [e for e in self.entries if not dominates(entry, e)]\n        self.entries.append(entry)\n\n        return True",
          "        for e in self.entries:\n            if dominates(e, entry):\n                return False\n\n        kept = []\n        for e in self.entries:\n            if not dominates(entry, e):\n                kept.append(e)\n        kept.append(entry)\n        self.entries = kept\n\n        return True"),
     ]),
+    # ---- behaviour changes that keep every property (the properties leave these choices to the code)
+    ("fail_factor_four", ["C07", "C08", "C15", "C12", "C10"], [
+        ("pygradflow/step/step_control.py", "        return 2.0 * lamb\n", "        return 4.0 * lamb\n"),
+    ]),
+    ("failed_step_returns_equal_copy", ["C07", "C08", "C12", "C15"], [
+        ("pygradflow/step/step_control.py", "            return StepControlResult(iterate, lamb, None, None, False)",
+         "            return StepControlResult(iterate.copy(), lamb, None, None, False)"),
+    ]),
+    ("dualnorm_factor_five", ["C16", "C10", "C01"], [
+        ("pygradflow/penalty.py", "        if ynorm >= 10.0 * self.rho:\n            next_rho = min(ynorm, 10.0 * self.rho)",
+         "        if ynorm >= 5.0 * self.rho:\n            next_rho = min(ynorm, 5.0 * self.rho)"),
+    ]),
+    ("extra_clock_reads", ["C02", "C08", "C09", "C10"], [
+        ("pygradflow/solver.py", "        if timer.reached_time_limit():\n            logger.debug(\"Reached time limit\")",
+         "        timer.elapsed()\n        if timer.reached_time_limit():\n            logger.debug(\"Reached time limit (%f)\", timer.elapsed())"),
+    ]),
+    ("callbacks_before_lamb_max_test", ["C12", "C15", "C07", "C16"], [
+        ("pygradflow/solver.py", "            if lamb >= params.lamb_max:\n                raise Exception(\n                    f\"Inverse step size {lamb} exceeded maximum {params.lamb_max} (incorrect derivatives?)\"\n                )\n\n            primal_step_norm = float(np.linalg.norm(next_iterate.x - iterate.x))\n            dual_step_norm = float(np.linalg.norm(next_iterate.y - iterate.y))\n\n            self.callbacks(CallbackType.ComputedStep, iterate, next_iterate, accept)\n",
+         "            primal_step_norm = float(np.linalg.norm(next_iterate.x - iterate.x))\n            dual_step_norm = float(np.linalg.norm(next_iterate.y - iterate.y))\n\n            self.callbacks(CallbackType.ComputedStep, iterate, next_iterate, accept)\n\n            if lamb >= params.lamb_max:\n                raise Exception(\n                    f\"Inverse step size {lamb} exceeded maximum {params.lamb_max} (incorrect derivatives?)\"\n                )\n"),
+    ]),
+    ("penalty_update_before_callbacks_attr", ["C16", "C12", "C18"], [
+        # solver.rho (an attribute, not what the trial steps use) is refreshed one statement earlier
+        ("pygradflow/solver.py", "            if accept:\n\n                if next_rho != self.rho:", "            if accept:\n                self.last_rho = self.rho\n\n                if next_rho != self.rho:"),
+    ]),
+    ("result_arrays_copied", ["C08", "C12", "C11"], [
+        ("pygradflow/solver.py", "        (x, y, d) = self.transform.restore_sol(x, y, d)\n\n        result = SolverResult(", "        (x, y, d) = self.transform.restore_sol(x, y, d)\n        x, y, d = np.array(x, copy=True), np.array(y, copy=True), np.array(d, copy=True)\n\n        result = SolverResult("),
+    ]),
     ("linear_solver_import_style", ["C07", "C09"], [
         ("pygradflow/linear_solver/__init__.py", "    if solver_type == LinearSolverType.LU:\n        from .lu_solver import LUSolver\n\n        return LUSolver(mat, symmetric=symmetric)",
          "    if solver_type == LinearSolverType.LU:\n        from pygradflow.linear_solver import lu_solver as _lu\n\n        return _lu.LUSolver(mat, symmetric=symmetric)"),
